@@ -434,6 +434,18 @@ func BadCategories() []string {
 
 var helperText = []string{`<b>{{.V}}</b>`, `{{.V}}`, `<i title="{{.V}}">{{.V}}</i>`, `{{if .C}}{{.V}}{{else}}-{{end}}`, `{{with .Next}}{{template "SELF" .}}{{end}}<u>{{.V}}</u>`}
 var helperAttr = []string{`{{.V}}`, `x{{.V}}y`, `{{if .C}}{{.V}}{{end}}&amp;`}
+
+// unbalanced helpers: name -> body; they fail when executed on their own (non-text end context) but are valid
+// pieces of the callers below
+var unbalancedHelpers = map[string]string{"o0": `<a href="`, "o1": `<div title='`, "o2": `<textarea>`, "o3": `<p><b`, "c0": `">`}
+var unbalancedCallers = []string{
+	`{{template "o0"}}/x">a</a>`, `{{template "o0"}}{{.U}}">b</a>`, `{{template "o0"}}/x">{{.V}}</a>{{template "o0"}}{{.U}}">`, `{{template "o0"}}/p?q={{.V}}">c</a>`,
+	`{{template "o1"}}{{.V}}'>x</div>`, `{{template "o1"}}static'>{{.V}}</div>`, `{{if .C}}{{template "o1"}}a'>{{else}}<div>{{end}}{{.V}}</div>`,
+	`{{template "o2"}}{{.V}}</textarea>`, `{{template "o2"}}</textarea>{{.V}}`,
+	`{{template "o3"}} title="{{.V}}">x</b></p>`, `{{template "o3"}}>{{.V}}</b></p>`,
+	`<a href="{{.U}}{{template "c0"}}x</a>`, `<a title="{{.V}}{{template "c0"}}{{.V}}</a>`, `{{template "o0"}}{{.U}}{{template "c0"}}{{.V}}</a>`,
+}
+
 var callersText = []string{`<p>{{template "H" .}}</p>`, `{{template "H" .}}{{template "H" .}}`, `<ul>{{range .L}}<li>{{template "H" $}}</li>{{end}}</ul>`, `<div>{{if .C}}{{template "H" .}}{{end}}</div>`}
 var callersAttr = []string{`<a title="{{template "H" .}}">x</a>`, `<input value='{{template "H" .}}'>`, `<textarea>{{template "H" .}}</textarea>`, `<a href="/x?q={{template "H" .}}">y</a>`}
 
@@ -450,6 +462,8 @@ type Options struct {
 	Unguarded    bool // allow unguarded recursion (costly: text/template depth limit)
 	NoRedefine   bool // definition ops only introduce fresh names (x1, x2)
 	AttrHelpers  bool // helpers may be written for attribute contexts (derived copies), each used in one context class only
+	Unbalanced   bool // helpers that end in another context than they start in, with callers that complete them
+	Markers      bool // untrusted data values carry the marker zQ<n>x at both ends (C02 location oracle)
 }
 
 type genState struct {
@@ -500,6 +514,25 @@ func Gen(t *rapid.T, o Options) *History {
 		}
 		add(name, body)
 		g.helpers = append(g.helpers, name+":"+ctx)
+	}
+	if o.Unbalanced {
+		var ks []string
+		for k := range unbalancedHelpers {
+			ks = append(ks, k)
+		}
+		sort.Strings(ks)
+		for _, k := range ks {
+			add(k, `{{mark "`+k+`"}}`+unbalancedHelpers[k])
+			if k != "c0" {
+				g.bad[k] = "helper-nontext-end" // fails on its own, valid as a callee
+			}
+		}
+		// "c0" (">) is plain text when executed on its own
+		nu := g.n(1, 3, "nunbalanced")
+		for i := 0; i < nu; i++ {
+			add(fmt.Sprintf("u%d", i), g.pick("ucaller", unbalancedCallers))
+		}
+		g.flagf("unbalanced-helpers")
 	}
 	nm := g.n(1, 4, "nmembers")
 	for i := 0; i < nm; i++ {
@@ -665,11 +698,17 @@ var dataV = []string{"", "a", "x&y", "<b>", "\" onx=\"", "'", "a b", "</textarea
 
 func (g *genState) data() *DataSpec {
 	d := &DataSpec{V: evid.BStr(g.pick("v", dataV)), U: evid.BStr(g.pick("u", []string{"/x", "javascript:alert(1)", "https://h/p?a=1&b=2", ""})), C: rapid.Bool().Draw(g.t, "c"), L: g.n(0, 2, "l"), Deep: g.n(0, 2, "deep")}
+	if g.o.Markers {
+		d.V = evid.BStr("zQ0x" + g.pick("vp", markerPayloads) + "zQ0x")
+		d.U = evid.BStr("zQ1x" + g.pick("up", markerPayloads) + "zQ1x")
+	}
 	if g.n(0, 9, "typed") == 0 {
 		d.Typ = g.pick("typ", tx.TypeNames)
 	}
 	return d
 }
+
+var markerPayloads = []string{"", "\"", "'", "<", ">", " ", "javascript:", "</textarea>", "</script>", "\" onx=\"", "' onx='", "//evil.test/", ":", "&", "=", "/"}
 
 // BadBodies returns the pool bodies of a category.
 func BadBodies(cat string) []string { return badBodies[cat] }
